@@ -81,9 +81,6 @@ func init() {
 		// C01.offsets: the sealing closures run sequentially in spawn order (interleavings: C01.seal)
 		"(*golang.org/x/sync/errgroup.Group).Go":   "c01Model_errgroupGo",
 		"(*golang.org/x/sync/errgroup.Group).Wait": "c01Model_errgroupWait",
-		// C01.read: the server's object cache
-		"(*github.com/allegro/bigcache/v3.BigCache).Get": "c01Model_bigcacheGet",
-		"(*github.com/allegro/bigcache/v3.BigCache).Set": "c01Model_bigcacheSet",
 		// CAR header CBOR codec (reflection-driven refmt): cut in C01.section / C01.e2e
 		"github.com/ipfs/go-ipld-cbor.DecodeInto": "c01Model_cborDecodeInto",
 		"github.com/ipld/go-car.WriteHeader":      "c01Model_carWriteHeader",
